@@ -71,6 +71,7 @@ def run(chk):
                "an absent tag before a present one must leave an empty placeholder, otherwise later tags shift into earlier categories" % (f_, ety, {k_: sorted(v_) for k_, v_ in table.items()}),
                site=C.site(C.body(w, f_), h_), sample={"fn": f_, "element": ety, "table": {str(k_): sorted(v_) for k_, v_ in table.items()}})
 
+    fmt.slot_range_rule(chk, w, "R04.4", WP, 2)
     fmt.text_scan_rule(chk, w, "R04.1", parser)
     # ---- tag count taken after the last tag was recorded
     coll, counts, late = fmt.tag_count_order(w, parser)
